@@ -277,10 +277,12 @@ class Scheduler(Subject):
             if task_api.task_call:
                 task_api.input_parameters = copy.deepcopy(task_api.task_call.input_parameters)
             self.substitute_loop_indexes(task_api)
-        elif self.generate_test_ids:
-            new_uuid = str(self.test_id_counters[0])
-            self.test_id_counters[0] = self.test_id_counters[0] + 1
-            task_api.uuid = new_uuid
+        else:
+            if self.generate_test_ids:
+                new_uuid = str(self.test_id_counters[0])
+                self.test_id_counters[0] = self.test_id_counters[0] + 1
+                task_api.uuid = new_uuid
+            self.substitute_loop_indexes(task_api)
 
         for callback in self.task_callbacks.task_started:
             callback(task_api)
@@ -293,7 +295,12 @@ class Scheduler(Subject):
         if call_api.task_context:
             task_uuid = call_api.task_context.uuid
             if task_uuid in self.loop_counters:
-                current_loop_counters = self.loop_counters[task_uuid]
+                # counting loops are registered under their loop object, parallel loops under
+                # the name of their counting variable: look both up by name
+                current_loop_counters = {
+                    (key.counting_variable if isinstance(key, CountingLoop) else key): value
+                    for key, value in self.loop_counters[task_uuid].items()
+                }
 
                 counter_was_raised = {}
                 for i, input_parameter in enumerate(call_api.input_parameters):
